@@ -354,6 +354,12 @@ class World(object):
       class Source(R.EventMixin):
         _eventMixin_events = set([EvA, EvB])
 
+    if cfg.get("falsy_source"):
+      # a publisher that is also an (empty) container, as pox's flow table
+      # and topology classes are: alive, and false in a boolean context
+      Source.__len__ = lambda self: 0
+      self.probe("falsy_source")
+
     def mk(m):
       def meth(self, e):
         return w.invoke(w.mname.get((self._k, m), -1), e)
@@ -1384,7 +1390,9 @@ _gen_main, _run_main, _hint_main = gen_plan, run_plan, minimise_hint
 def gen_plan(seed, tier):           # noqa: F811
   if Rng(mix(seed, "dup")).chance(0.08):
     return _gen_dup(seed)
-  return _gen_main(seed, tier)
+  plan = _gen_main(seed, tier)
+  plan["cfg"]["falsy_source"] = Rng(mix(seed, "falsy")).chance(0.2)
+  return plan
 
 
 def run_plan(plan):                 # noqa: F811
